@@ -31,6 +31,15 @@ CONSTANTS
   Deviation    \* "none", or the name of a realistic wrong behaviour (non-vacuity runs):
                \*   "pts-body-only"  the muxer writes PreviousTagSize = DataSize (without the 11 header bytes)
                \*   "ts-ext-first"   muxer AND demuxer put the timestamp extension byte before the 24 low bits
+               \* implementation boundaries (a fast path through a fixed scratch buffer of ScratchCap bytes whose guard
+               \* forgets the 4 bytes of PreviousTagSize): wrong only for a window of 4 body sizes that is no boundary
+               \* of the format - which is why every body size is swept (MC: McSweep, GEN: Gen_FlvSweep)
+               \*   "mux-scratch-trunc"   the muxer gathers header + body + PreviousTagSize in the scratch when
+               \*                         11 + size <= ScratchCap and writes what fitted: sizes ScratchCap-14 ..
+               \*                         ScratchCap-11 lose 1..4 bytes of PreviousTagSize
+               \*   "demux-scratch-short" the demuxer reads body + PreviousTagSize into the scratch when
+               \*                         size <= ScratchCap and consumes what fitted: after a body of ScratchCap-3 ..
+               \*                         ScratchCap bytes 1..4 bytes of PreviousTagSize are left in the stream
 
 VARIABLES
   flags, tags,              \* the input: what the application writes
@@ -57,6 +66,10 @@ TagsEnc(gs)  == IF gs = <<>> THEN <<>> ELSE TagEnc(Head(gs)) \o TagsEnc(Tail(gs)
 
 FileEnc(f, gs) == HeaderEnc(f) \o TagsEnc(gs)
 
+\* the scratch buffer of the two fast-path deviations (a cfg may override it: ScratchCap <- ...)
+ScratchCap == 16
+Min(a, b)  == IF a < b THEN a ELSE b
+
 \* What the modelled muxer writes for a tag (the layout, unless a deviation is switched on).
 MuxTagEnc(g) ==
   CASE Deviation = "pts-body-only" ->
@@ -64,6 +77,14 @@ MuxTagEnc(g) ==
     [] Deviation = "ts-ext-first" ->
          <<U8(g.t), U24(g.n), U8(g.ts[1]), U24(g.ts[2]), U24(0)>> \o BodyEnc(g) \o <<U32(11 + g.n)>>
     [] OTHER -> TagEnc(g)
+\* ... as bytes: the fast path writes only what fitted into the scratch
+MuxTagBytes(g) ==
+  IF Deviation = "mux-scratch-trunc" /\ 11 + g.n <= ScratchCap
+  THEN Sub(Bytes(TagEnc(g)), 1, Min(15 + g.n, ScratchCap))
+  ELSE Bytes(MuxTagEnc(g))
+\* How many bytes the modelled demuxer's ReadTag takes from the stream for a body of n bytes (the layout: n + 4)
+DemuxTagTake(n) ==
+  IF Deviation = "demux-scratch-short" /\ n <= ScratchCap THEN Min(n + 4, ScratchCap) ELSE n + 4
 
 \* ------------------------------------------- what the demuxer calls compute
 \* ReadHeader: 13 bytes (header and PreviousTagSize0, which is skipped)
@@ -121,7 +142,7 @@ WriteHeader == /\ mpc = "hdr"
                /\ mpc' = "tag"
                /\ UNCHANGED <<flags, tags, written, avail, dpc, pos, pending, hdrOut, got>>
 WriteTag    == /\ mpc = "tag" /\ written < Len(tags)
-               /\ file' = file \o Bytes(MuxTagEnc(tags[written + 1]))
+               /\ file' = file \o MuxTagBytes(tags[written + 1])
                /\ written' = written + 1
                /\ UNCHANGED <<flags, tags, mpc, avail, dpc, pos, pending, hdrOut, got>>
 CloseMux    == /\ mpc = "tag" /\ written = Len(tags)
@@ -150,7 +171,7 @@ ReadTagHeader == /\ dpc = "tagHdr" /\ Buffered >= 11
 ReadTag       == /\ dpc = "body" /\ Buffered >= pending.n + 4
                  /\ got' = Append(got, [t |-> pending.t, ts |-> pending.ts, n |-> pending.n,
                                         body |-> Sub(file, pos + 1, pending.n)])
-                 /\ pos' = pos + pending.n + 4 /\ dpc' = "tagHdr"
+                 /\ pos' = pos + DemuxTagTake(pending.n) /\ dpc' = "tagHdr"
                  /\ UNCHANGED <<flags, tags, mpc, written, file, avail, pending, hdrOut>>
 \* end of file exactly at a tag boundary: ReadTagHeader reports EOF, nothing is returned
 ReadEOF       == /\ dpc = "tagHdr" /\ mpc = "closed" /\ pos = Len(file)
